@@ -91,60 +91,103 @@ func hdrEqual(a, b impl.Header) string {
 	return ""
 }
 
-// tailSink keeps only the last 8 bytes and the count of what it receives.
-type tailSink struct {
-	tail []byte
-	n    int64
-}
+// zeroReader yields n zero bytes.
+type zeroReader struct{ left int64 }
 
-func (t *tailSink) Write(p []byte) (int, error) {
-	t.n += int64(len(p))
-	t.tail = append(t.tail, p...)
-	if len(t.tail) > 8 {
-		t.tail = append([]byte(nil), t.tail[len(t.tail)-8:]...)
+func (z *zeroReader) Read(p []byte) (int, error) {
+	if z.left == 0 {
+		return 0, io.EOF
 	}
-	return len(p), nil
+	n := int64(len(p))
+	if n > z.left {
+		n = z.left
+	}
+	for i := int64(0); i < n; i++ {
+		p[i] = 0
+	}
+	z.left -= n
+	return int(n), nil
 }
 
-// huge streams 4 GiB + 5 bytes of zeros: the length field must wrap to 5.
+// countZeros drains rd, requiring zero bytes only.
+func countZeros(rd io.Reader) (int64, error) {
+	buf := make([]byte, 1<<20)
+	var total int64
+	for {
+		n, err := rd.Read(buf)
+		for _, b := range buf[:n] {
+			if b != 0 {
+				return total, fmt.Errorf("non-zero byte in the payload near offset %d", total)
+			}
+		}
+		total += int64(n)
+		if err == io.EOF {
+			return total, nil
+		}
+		if err != nil {
+			return total, err
+		}
+	}
+}
+
+// huge: a payload of 4 GiB + 5 zero bytes, both directions: the length field is
+// the length mod 2^32 when written and must be compared mod 2^32 when read.
 func (c06) huge(c *mon.Ctx) {
 	const total = int64(4)<<30 + 5
-	ts := &tailSink{}
-	w, err := c.API.NewGzipWriterLevel(ts, 1)
-	if err != nil {
-		return
-	}
-	chunk := make([]byte, 1<<20)
-	crc := uint32(0)
-	for left := total; left > 0; {
-		n := int64(len(chunk))
-		if n > left {
-			n = left
+	want := func() []byte {
+		crc := uint32(0)
+		chunk := make([]byte, 1<<20)
+		for left := total; left > 0; {
+			n := int64(len(chunk))
+			if n > left {
+				n = left
+			}
+			crc = crc32.Update(crc, crc32.IEEETable, chunk[:n])
+			left -= n
 		}
-		if _, err := w.Write(chunk[:n]); err != nil {
-			c.Violate("huge|write-error", err.Error(), nil)
+		return append(le32(crc), le32(uint32(total&0xffffffff))...)
+	}()
+	for _, dir := range []string{"fastgo->stdlib", "stdlib->fastgo"} {
+		wa, ra := c.API, impl.Stdlib
+		if dir == "stdlib->fastgo" {
+			wa, ra = impl.Stdlib, c.API
+		}
+		var cont bytes.Buffer
+		w, err := wa.NewGzipWriterLevel(&cont, 1)
+		if err != nil {
 			return
 		}
-		crc = crc32.Update(crc, crc32.IEEETable, chunk[:n])
-		left -= n
+		if _, err := io.Copy(w, &zeroReader{left: total}); err != nil {
+			c.Violate("huge|write-error|"+dir, err.Error(), nil)
+			return
+		}
+		if err := w.Close(); err != nil {
+			c.Violate("huge|close-error|"+dir, err.Error(), nil)
+			return
+		}
+		b := cont.Bytes()
+		if dir == "fastgo->stdlib" && (len(b) < 8 || !bytes.Equal(b[len(b)-8:], want)) {
+			c.Violate("trailer|gzip|length-mod-2^32", fmt.Sprintf("payload of 2^32+5 zero bytes: trailer %x, expected %x", b[max0(len(b)-8):], want), nil)
+			return
+		}
+		z, err := ra.NewGzipReader(bytes.NewReader(b))
+		var n int64
+		if err == nil {
+			n, err = countZeros(z)
+		}
+		c.Eval(1)
+		if err != nil || n != total {
+			c.Violate("payload|gzip|"+dir+"|over-4GiB", fmt.Sprintf("payload of 2^32+5 zero bytes %s: reader returned %d bytes, err=%v", dir, n, err), nil)
+			return
+		}
+		c.Count("payload-over-4GiB "+dir, 1)
+		c.Nontrivial("huge", dir, total)
+		c.Sample(map[string]interface{}{"kind": "gzip", "direction": dir, "payload": "2^32+5 zero bytes", "container_len": len(b), "trailer": fmt.Sprintf("%x", b[len(b)-8:])})
 	}
-	if err := w.Close(); err != nil {
-		c.Violate("huge|close-error", err.Error(), nil)
-		return
-	}
-	c.Eval(1)
-	want := append(le32(crc), le32(uint32(total&0xffffffff))...)
-	if !bytes.Equal(ts.tail, want) {
-		c.Violate("trailer|gzip|length-mod-2^32", fmt.Sprintf("payload of 2^32+5 zero bytes: trailer %x, expected %x", ts.tail, want), nil)
-		return
-	}
-	c.Count("payload-over-4GiB-length-wraps", 1)
-	c.Nontrivial("huge", total)
-	c.Sample(map[string]interface{}{"kind": "gzip", "payload": "2^32+5 zero bytes", "container_len": ts.n, "trailer": fmt.Sprintf("%x", ts.tail)})
 }
 
 func (p c06) Run(c *mon.Ctx, i int) {
-	if i == 0 && c.Tier == "thorough" && (c.Level == 0 || c.Level == 4 || c.Level == 3) {
+	if i == 0 && (c.Level == 0 || c.Level >= 3) {
 		p.huge(c)
 		return
 	}
